@@ -77,6 +77,11 @@ type Enc struct {
 	fresh    int
 	epochCtr int
 	nilLit   string
+	commuteKey  string
+	commuteSite int
+	commuteRefs []commuteRef
+	commuteMode bool
+	commuteKeySort string
 	epochs   map[int]epochInfo
 	frameCtr int
 
@@ -143,6 +148,10 @@ func (e *Enc) assume(reach, fact string) {
 }
 
 func (e *Enc) oblige(kind, id, label, reach, goal, where string) *Obl {
+	if e.commuteMode && kind != "commute" {
+		// only the order-independence obligations are generated in commutativity mode
+		return &Obl{ID: id, Kind: kind}
+	}
 	o := &Obl{ID: id, Kind: kind, Unit: e.unit.Key(), Label: label, Prefix: len(e.script), Reach: reach, Goal: goal, Where: where}
 	e.obls = append(e.obls, o)
 	return o
@@ -340,9 +349,24 @@ func (e *Enc) mergeStates(conds []string, states []*State) *State {
 
 // allocRef returns a fresh non-nil reference.
 func (e *Enc) allocRef(st *State) string {
+	if e.commuteKey != "" {
+		// commutativity mode: the address of an object allocated while processing key k at allocation site s
+		// is a function of (s, k): results are compared up to the (unobservable) choice of fresh addresses
+		e.commuteSite++
+		site := e.commuteSite
+		t := fmt.Sprintf("(+ alloc0 (uf_fresh %d %s))", site, e.commuteKey)
+		e.commuteRefs = append(e.commuteRefs, commuteRef{site, e.commuteKey, t})
+		return e.define("ref", "Int", t)
+	}
 	r := e.define("ref", "Int", fmt.Sprintf("(+ %s 1)", st.alloc))
 	st.alloc = r
 	return r
+}
+
+type commuteRef struct {
+	site int
+	key  string
+	term string
 }
 
 // Places ---------------------------------------------------------------------------------------
